@@ -230,7 +230,25 @@ def summarise(ev, paths, effect, known_some=()):
                         break
                     j += 1
                 if nxt is None:
-                    raise Unresolved('loop at bb%d is not driven by Iterator::next at its head' % head)
+                    # counter-driven loop: `while i < N { ..; i += 1 }` - trip count N - i0
+                    trip = _counter_trip(paths, head, e)
+                    if trip is None:
+                        raise Unresolved('loop at bb%d is not driven by Iterator::next at its head' % head)
+                    iters = per_iter.get(head, {0})
+                    if len(iters) != 1:
+                        raise Unresolved('loop body at bb%d has paths with different effect counts %s' % (head, sorted(iters)))
+                    kk = next(iter(iters))
+                    is_lv = lambda x: isinstance(x, tuple) and x and x[0] == 'loop' and x[1] == head
+                    exited = any(t[0] == 'bin' and not v and ((t[1] == 'Lt' and is_lv(t[2])) or (t[1] == 'Ne' and (is_lv(t[2]) or is_lv(t[3])))) for t, v, _ in r.preds)
+                    if exited:
+                        if kk:
+                            count = affine_add(count, affine_mul_term(trip, kk))
+                        notes.append('loop bb%d (counter): %s x %d' % (head, sym.show(trip), kk))
+                    else:
+                        notes.append('loop bb%d: early exit after an unknown number of iterations' % head)
+                        count = affine_add(count, ({'partial@bb%d' % head: (1, ('c', 'partial@bb%d' % head))}, 0))
+                    i += 1
+                    continue
                 a0 = nxt['args'][0]
                 if a0[0] != 'ref':
                     raise Unresolved('loop iterator is not a local')
@@ -276,6 +294,36 @@ def summarise(ev, paths, effect, known_some=()):
                     ks.add(strip_uid(e['result']))
         out.append(Summary(preds, count, r.ret, r.end, r, entered, notes, ks))
     return out
+
+
+def _counter_trip(paths, head, enter_event):
+    """Trip count of `while i < N { body; i += 1 }`: a local whose back-edge value is itself + 1 and which the loop guard
+    compares (strictly) with a loop-invariant bound.  Returns the term N - i0 or None."""
+    cands = None
+    for r in paths:
+        if r.end != 'backedge' or r.end_block != head:
+            continue
+        here = set()
+        for k, v in r.store.items():
+            lv = ('loop', head, k)
+            if len(k) == 1 and v == sym.mk_bin('Add', lv, sym.mk_int(1)):
+                inv = lambda b: not sym.contains(b, lambda x: isinstance(x, tuple) and x and x[0] == 'loop' and x[1] == head)
+                for t, val, _ in r.preds:
+                    if t[0] == 'bin' and t[1] == 'Lt' and t[2] == lv and val and inv(t[3]):
+                        here.add((k, t[3]))
+                    # `while i != N` counts up to N as well (from a start value of 0 it cannot step over an unsigned N)
+                    if t[0] == 'bin' and t[1] == 'Ne' and lv in (t[2], t[3]) and val and enter_event['pre'].get(k) == sym.mk_int(0):
+                        other = t[3] if t[2] == lv else t[2]
+                        if inv(other):
+                            here.add((k, other))
+        cands = here if cands is None else (cands & here)
+    if not cands or len(cands) != 1:
+        return None
+    k, bound = list(cands)[0]
+    i0 = enter_event['pre'].get(k)
+    if i0 is None:
+        return None
+    return sym.mk_bin('Sub', bound, i0)
 
 
 def compatible(pa, pb):
